@@ -479,6 +479,7 @@ func c20ConcChildMain(specPath string) {
 }
 
 type concBatch struct {
+	raceExit bool
 	rounds   []concRound
 	died     bool
 	diedIn   int
@@ -519,6 +520,10 @@ func runConcChild(r *vkit.Run, spec concSpec, tag string, timeout time.Duration)
 	ctx, cancel := context.WithTimeout(context.Background(), timeout)
 	defer cancel()
 	cmd := exec.CommandContext(ctx, bin, "-child", "c20conc", "-spec", specPath)
+	if g := os.Getenv("GORACE"); g != "" {
+		// race reports of a child are recorded (files), they must not turn its exit status into 66
+		cmd.Env = append(os.Environ(), "GORACE="+g+" exitcode=0")
+	}
 	var stdout, stderr bytes.Buffer
 	cmd.Stdout, cmd.Stderr = &stdout, &stderr
 	err := cmd.Run()
@@ -544,7 +549,11 @@ func runConcChild(r *vkit.Run, spec concSpec, tag string, timeout time.Duration)
 			cb.watchdog = true
 		}
 	}
-	if err != nil {
+	if err != nil && started < 0 && len(cb.rounds) > 0 && !cb.watchdog && ctx.Err() == nil {
+		// every announced round reported its result: a non-zero exit now is the race
+		// detector's exit status (66) after it printed reports - recorded, not a death
+		cb.raceExit = true
+	} else if err != nil {
 		cb.died = true
 		cb.diedIn = started
 		cb.stderr = trunc(stderr.String(), 6000)
@@ -558,7 +567,7 @@ func runConcChild(r *vkit.Run, spec concSpec, tag string, timeout time.Duration)
 
 func runC20Concurrent(r *vkit.Run, rp *reporter, rf *replayFile, base *vkit.Rand) {
 	kinds := []string{"safe", "cachebig", "cachefs"}
-	perKind := map[string]int{"safe": r.N(24, 480), "cachebig": r.N(8, 160), "cachefs": r.N(8, 160)}
+	perKind := map[string]int{"safe": r.N(24, 120), "cachebig": r.N(8, 40), "cachefs": r.N(8, 40)}
 	seed := r.Seed
 	if rf != nil {
 		// replay one round: schedules are sampled, so retry and report honestly
@@ -646,6 +655,9 @@ func runC20Concurrent(r *vkit.Run, rp *reporter, rf *replayFile, base *vkit.Rand
 					r.Sample(map[string]any{"concurrent_round": rr})
 				}
 			}
+			if cb.raceExit {
+				r.Count("obs:children_exiting_with_race_detector_status:"+kr.kind, 1)
+			}
 			if cb.died {
 				if cb.watchdog {
 					r.Inconclusive(fmt.Sprintf("concurrent child (%s) hit the watchdog in round %d", kr.kind, cb.diedIn))
@@ -669,6 +681,40 @@ func runC20Concurrent(r *vkit.Run, rp *reporter, rf *replayFile, base *vkit.Rand
 		if m, _ := filepath.Glob(p + ".*"); len(m) > 0 {
 			sort.Strings(m)
 			r.Count("obs:race_detector_report_files", int64(len(m)))
+			for _, f := range m {
+				b, err := os.ReadFile(f)
+				if err != nil {
+					continue
+				}
+				for _, rep := range strings.Split(string(b), "==================") {
+					if !strings.Contains(rep, "WARNING: DATA RACE") {
+						continue
+					}
+					r.Count("obs:race_detector_reports", 1)
+					// the first non-runtime frame of each of the two accesses
+					var sites []string
+					lines := strings.Split(rep, "\n")
+					for i, l := range lines {
+						t := strings.TrimSpace(l)
+						if strings.HasPrefix(t, "Write at") || strings.HasPrefix(t, "Read at") || strings.HasPrefix(t, "Previous write at") || strings.HasPrefix(t, "Previous read at") {
+							for j := i + 1; j < len(lines); j++ {
+								fn := strings.TrimSpace(lines[j])
+								if fn == "" {
+									break
+								}
+								if strings.HasPrefix(fn, "runtime.") || strings.HasPrefix(fn, "/") {
+									continue
+								}
+								fn = strings.TrimPrefix(fn, "github.com/jdillenkofer/pithos/internal/")
+								sites = append(sites, strings.TrimSuffix(fn, "()"))
+								break
+							}
+						}
+					}
+					sort.Strings(sites)
+					r.Seen("obs:race_sites", strings.Join(sites, " <-> "))
+				}
+			}
 		}
 	}
 	if totalOverlap == 0 {
